@@ -154,6 +154,15 @@ reg(
       bounds=L2M + " [R1 x2 H1], one extra live handle", functions=["rawdb::Region::remove", "rawdb::Layout::remove_region", "rawdb::Regions::remove"], stubs=[FMT, SBG, SLOT, TOVEC]),
 )
 
+reg(
+    H("c18_open_refusal_has_no_effect", "rawdb", "C18", mem=12, timeout=1200,
+      desc="Database::open_with_min_len on the file-system model with symbolic data-file length, symbolic min_len and symbolic 'lock held by another holder' flags for both files: no file is ever opened with truncate(true); the lock attempt on the data file precedes every resize/sync; an open refused because the data file is locked has resized, synced and written nothing; a successful open holds both locks and leaves the data file at max(len, min_len)",
+      bounds="data file 0..8 pages (page multiples), min_len 0..16 pages, empty regions file; advisory lock modelled as a flag per file (try_lock fails iff another holder has it)",
+      functions=["rawdb::Database::open_with_min_len", "rawdb::Regions::open", "rawdb::mmap::create_mmap"],
+      stubs=[FMT, SBG, "std::path::Path::file_name -> None (display name only)", "std::path::Path::join -> last component (the fs model identifies files by open order)",
+             "rawdb::Regions::fill -> Ok(()) (runs after both locks; empty regions file)", "<[u8]>::to_vec -> bounded copy (8)"]),
+)
+
 PROM = "Layout::promote_pending_holes -> stub that records a ghost 'promote' event and empties the pending map (the real function is decided by c02_l1_promote_*)"
 reg(
     H("c05_flush_order", "rawdb", "C05", mem=30, timeout=2400, tier="thorough", also=("C12",),
